@@ -18,6 +18,7 @@ func init() {
 		&Rule{ID: "BLD-PURE", Doc: "building a token or a block does not modify the builder it is built from", Run: ruleBldPure, Min: 2},
 		&Rule{ID: "PN-STDOUT", Doc: "library code does not write to standard output / standard error", Run: rulePNStdout, Min: 1},
 		&Rule{ID: "EX-DATECONV", Doc: "signed seconds (time.Time.Unix) become an unsigned date only after a range test, and the encoder refuses wrapped dates", Run: ruleEXDateConv, Min: 2},
+		&Rule{ID: "SN-FRESH", Doc: "a snapshot replaces the authorizer's symbol table only when the authorizer holds no content yet (the snapshot's indexes would reinterpret existing facts and rules)", Run: ruleSNFresh, Min: 1},
 		&Rule{ID: "SN-ALL", Doc: "saving and loading a snapshot treat every fact, rule, check, policy and query: no element is skipped by a continue or a conditional add", Run: ruleSNAll, Min: 8},
 		&Rule{ID: "SN-FIELDS", Doc: "the authorizer snapshot writes every field of pb.AuthorizerPolicies and the loader reads every field; written version = accepted version", Run: ruleSNFields, Min: 12},
 		&Rule{ID: "SN-KIND", Doc: "policy kinds are mapped totally, inversely and name-consistently when saving and loading", Run: ruleSNKind, Min: 4},
@@ -2247,4 +2248,57 @@ func isElementwiseMapper(h *ssa.Function) bool {
 		}
 	}
 	return false
+}
+
+func ruleSNFresh(p *Prog, r *Reporter) {
+	globalP = p
+	_, ms := authorizerImpl(p)
+	n := 0
+	for _, m := range ms {
+		if m.Name() == "Reset" || m.Parent() != nil {
+			continue
+		}
+		// methods reachable from LoadPolicies that assign the request-level symbol table
+		for _, fs := range fieldStoresVia(m, m.Params[0]) {
+			if fs.field != "symbols" {
+				continue
+			}
+			n++
+			V := m.Params[0].Name()
+			// the store must be reached only on the "nothing interned, nothing added, not evaluated" side of these tests
+			need := map[string]bool{"symbols": false, "facts": false, "checks": false}
+			for _, g := range guardsOf(fs.st.Block()) {
+				bo, ok := g.cond.(*ssa.BinOp)
+				if !ok {
+					continue
+				}
+				same := (bo.Op == token.NEQ && !g.val) || (bo.Op == token.EQL && g.val)
+				if !same {
+					continue
+				}
+				dx, dy := p.D(bo.X), p.D(bo.Y)
+				both := dx + " | " + dy
+				switch {
+				case strings.Contains(both, V+".symbols") && strings.Contains(both, V+".baseSymbols"):
+					need["symbols"] = true
+				case strings.Contains(both, V+".world") && strings.Contains(both, V+".baseWorld") && strings.Contains(both, "Facts"):
+					need["facts"] = true
+				case strings.Contains(dx, "len("+V+".checks)") || strings.Contains(dx, "len("+V+".policies)"):
+					if k, isK := constInt(bo.Y); isK && k == 0 {
+						need["checks"] = true
+					}
+				}
+			}
+			missing := ""
+			for _, k := range []string{"symbols", "facts", "checks"} {
+				if !need[k] {
+					missing += " " + k
+				}
+			}
+			r.Check(missing == "", p.instrPos(fs.st), p.FuncName(m), "replace symbol table", "only on an authorizer whose table, world and checks are still in their initial state", "the authorizer's symbol table is replaced by base + snapshot symbols without testing that nothing was interned or added before (untested:"+missing+"): facts and rules already in the world are reinterpreted through the snapshot's table (user(\"alice\") becomes user(\"bob\")), and the outcome depends on whether content was added before or after loading")
+		}
+	}
+	if n == 0 {
+		r.Bad("?", "biscuit.authorizer", "loader", "no method assigns the authorizer's symbol table (the snapshot loader was expected)")
+	}
 }
